@@ -179,7 +179,8 @@ class Gen:
             return ("lit", r.choice((0, 0, 1, 1, 2, 3, 4, 5, 7, 10)))
         if kind == "epoch":
             return ("lit", r.choice((0, 86400, 1700000000, 951782400, 1234567890, 4000000000, -1, 1.5, 253402300800, 2 ** 62, 90.25, 90.5, 90.75,
-                                     -86400, -1.5, -0.5, 0.25, -1234567890.125, 1700000000.875, -0.125, 59.5, -3600)))
+                                     -86400, -1.5, -0.5, 0.25, -1234567890.125, 1700000000.875, -0.125, 59.5, -3600,
+                                     -1e-20, -1e-12, -1e-17)))
         if kind == "str":
             if r.random() < self.nonascii:
                 return ("lit", r.choice(NONASCII))
